@@ -3,6 +3,7 @@ package rules
 import (
 	"fmt"
 	"os"
+	"sort"
 	"strings"
 
 	"ibcverif/interp"
@@ -18,6 +19,7 @@ type Req struct {
 	Name string
 	Any  [][]string // options; at least one must hold (each a conjunction)
 	None []string   // forbidden atoms
+	Args map[int]string // patterns the call's arguments must match (receiver is 0 for interface calls)
 }
 
 func all(ps ...string) [][]string { return [][]string{ps} }
@@ -26,6 +28,7 @@ type compiledReq struct {
 	Req
 	any  [][]*term.Pat
 	none []*term.Pat
+	args map[int]*term.Pat
 }
 
 func (c *Ctx) compile(which string, m Macros, rs []Req) []compiledReq {
@@ -36,14 +39,43 @@ func (c *Ctx) compile(which string, m Macros, rs []Req) []compiledReq {
 			out[i].any = append(out[i].any, c.pats(which, m, opt...))
 		}
 		out[i].none = c.pats(which, m, r.None...)
+		if len(r.Args) > 0 {
+			out[i].args = map[int]*term.Pat{}
+			for k, v := range r.Args {
+				out[i].args[k] = c.pats(which, m, v)[0]
+			}
+		}
 	}
 	return out
 }
 
 // evalReq returns "" if the requirement holds on atoms, else a diagnosis.
 func (c *Ctx) evalReq(e *interp.Engine, atoms term.Set, env term.Env, r *compiledReq) string {
+	return c.evalReqArgs(e, atoms, env, r, nil)
+}
+
+// evalReqArgs first matches the argument patterns (in index order, extending
+// the environment), then the atom requirements under that environment.
+func (c *Ctx) evalReqArgs(e *interp.Engine, atoms term.Set, env term.Env, r *compiledReq, args []term.ID) string {
 	if env == nil {
 		env = term.Env{}
+	}
+	if len(r.args) > 0 {
+		idx := make([]int, 0, len(r.args))
+		for k := range r.args {
+			idx = append(idx, k)
+		}
+		sort.Ints(idx)
+		for _, i := range idx {
+			if i >= len(args) {
+				return fmt.Sprintf("call has no argument %d", i)
+			}
+			var got term.Env
+			if !e.T.Match(r.args[i], args[i], env, func(en term.Env) bool { got = en; return true }) {
+				return fmt.Sprintf("argument %d is %s, expected %s", i, clip(e.T.String(args[i]), 300), r.args[i].Src)
+			}
+			env = got
+		}
 	}
 	if len(r.any) > 0 {
 		okAny := false
@@ -114,7 +146,7 @@ func (c *Ctx) Check(which, rulePrefix string, evs []*interp.Event, min int, m Ma
 				if bind != nil {
 					env = bind(ev)
 				}
-				if d := c.evalReq(e, ev.Atoms, env, r); d != "" {
+				if d := c.evalReqArgs(e, ev.Atoms, env, r, ev.Args); d != "" {
 					diag = d
 					if os.Getenv("VERIF_DEBUG") != "" {
 						fmt.Printf("DEBUG %s/%s fails at %s: %s\n", rulePrefix, r.Name, where, d)
@@ -227,4 +259,11 @@ func (c *Ctx) ArgMatches(which string, evs []*interp.Event, i int, m Macros, src
 		}
 	}
 	return out
+}
+
+func clip(s string, n int) string {
+	if len(s) > n {
+		return s[:n] + "…"
+	}
+	return s
 }
